@@ -272,6 +272,7 @@ class RemoveWatch(Monitor):
                 'all_sat': i.state.prerequisites_all_satisfied(),
                 'outputs': set(i.state.outputs.get_completed_outputs()),
                 'submit_num': i.submit_num,
+                'oid': id(i),
             }
         return out
 
@@ -358,8 +359,22 @@ class RemoveWatch(Monitor):
             if e is None and a is not None:
                 if ident in before:
                     if ident in full:
+                        # known finding C30-F3: the proxy found in the pool is
+                        # a new one, built inside the command by the release
+                        # of a runahead-limited task (spawn_next_parentless)
+                        # from the history rows that the removal has only
+                        # queued for erasure: it carries the old status and
+                        # job number and has no job
+                        b_ = before[ident]
+                        fresh = (a.get('oid') != b_.get('oid')
+                                 and a['gte_prep'] and a['status'] == b_['status']
+                                 and a['submit_num'] == b_['submit_num'])
                         res.violate('removed_target_left_in_pool', dict(
-                            detail, task=ident, flows=sorted(a['flows'])))
+                            detail, task=ident, flows=sorted(a['flows']),
+                            status=a['status'], submit_num=a['submit_num'],
+                            predicates=(
+                                ['respawned_from_history_not_yet_erased']
+                                if fresh else [])))
                     else:
                         res.violate('orphaned_child_left_in_pool', dict(
                             detail, child=ident,
